@@ -137,12 +137,14 @@ def run_body(h, run, kind):
                 state['start'] = start
                 it.assign(s.target, (i_var, raw), env)
                 state['lines_before'] = list(env.lookup('lines'))
+                state['vars_before'] = {k: env.lookup(k) for k in ('path', 'current_dirs', 'include_dirs', 'base_path') if _has(env, k)}
                 try:
                     it.exec_block(s.body, env)
                 except I._Continue:
                     pass
                 state['lines_after'] = env.lookup('lines')
-                state['path'] = env.lookup('path')
+                state['path'] = state['vars_before'].get('path')
+                state['vars_after'] = {k: env.lookup(k) for k in state['vars_before']}
                 return True
         return None
 
@@ -168,6 +170,14 @@ def run_body(h, run, kind):
     it.concrete_method = concrete_method
     res = it.call(h.env.vars['read_lines'], [top], {'include_dirs': [incdir]})
     return dict(result=res, state=state, calls=calls, top=top, incdir=incdir, raw=raw, i=i_var, exists=exists, bools=bools)
+
+
+def _has(env, k):
+    try:
+        env.lookup(k)
+        return True
+    except KeyError:
+        return False
 
 
 class SubLines(I.Opaque):
@@ -222,6 +232,15 @@ def obligations_reader(ctx, h):
             ctx.add(Obligation('%s/%s/path%d/paths-derive-from-the-including-file-or-include-dirs' % (fn, kind, pi), list(p.pc),
                                z3.BoolVal(prov_ok), 'INT', func=fn, kind='frame', cover=False,
                                meta={'replay': rp, 'props': ['C14', 'C10'], 'what': 'read_lines consults a path outside the search rule: %s' % why}))
+            # loop invariant: the variables the loop reads (the file name lines are attributed to, the search path) are the
+            # same objects after the body, and the search path is an ordered list (first match must be well defined)
+            inv_ok = all(st['vars_after'].get(k) is v for k, v in st['vars_before'].items())
+            cd = st['vars_before'].get('current_dirs')
+            ordered = isinstance(cd, list) and not p.notes.get('set_iterated')
+            ctx.add(Obligation('%s/%s/path%d/loop-variables-unchanged-and-search-path-ordered' % (fn, kind, pi), list(p.pc),
+                               z3.BoolVal(bool(inv_ok and ordered)), 'INT', func=fn, kind='invariant', cover=False,
+                               meta={'replay': rp, 'props': ['C14', 'C15', 'C16', 'C10'],
+                                     'what': 'read_lines changes the file name / search path while reading a file, or searches an unordered collection'}))
             ok = True
             why = ''
             start_ok = st.get('start') == 1
